@@ -118,6 +118,13 @@ func (c *mctx) assign(x *ast.AssignStmt) error {
 			return nil
 		}
 	}
+	// legacy := a != "" && b == "": a local standing for a boolean condition
+	if len(x.Lhs) == 1 && isBoolExpr(rhs) {
+		if id, ok := x.Lhs[0].(*ast.Ident); ok && id.Name != "_" {
+			c.locals[id.Name] = &mv{k: "cond", text: c.ccond(rhs), ast: rhs}
+			return nil
+		}
+	}
 	if call, ok := rhs.(*ast.CallExpr); ok {
 		fun := c.src(call.Fun)
 		if ok, err := c.effect(call); ok || err != nil {
@@ -216,6 +223,8 @@ func (c *mctx) wrapCheck(chk string) string {
 			chk = fmt.Sprintf("ChkIfNonEmpty %s (%s)", cdCoqPath(g.path), chk)
 		case "LenPos":
 			chk = fmt.Sprintf("ChkIfLenPos %s (%s)", cdCoqPath(g.path), chk)
+		case "Cond":
+			chk = fmt.Sprintf("ChkIf %s (%s)", g.text, chk)
 		default:
 			chk = fmt.Sprintf("ChkExternal %s", cdCoqString("guarded by "+g.kind+" "+strings.Join(g.path, ".")+": "+chk))
 		}
@@ -242,7 +251,90 @@ func (c *mctx) condCheck(cond ast.Expr) (string, bool) {
 	return fmt.Sprintf("ChkRejectIf %s %s %s", rel, ls, rs), true
 }
 
+func isBoolExpr(e ast.Expr) bool {
+	switch x := e.(type) {
+	case *ast.ParenExpr:
+		return isBoolExpr(x.X)
+	case *ast.UnaryExpr:
+		return x.Op == token.NOT
+	case *ast.BinaryExpr:
+		switch x.Op {
+		case token.LAND, token.LOR, token.EQL, token.NEQ, token.LSS, token.GTR, token.LEQ, token.GEQ:
+			return true
+		}
+	}
+	return false
+}
+
+// ccond reads a boolean expression over source fields (destination fields are traced back to the
+// source field they were copied from) as a term of the closed vocabulary `ccond`.
+func (c *mctx) ccond(e ast.Expr) string {
+	switch x := e.(type) {
+	case *ast.ParenExpr:
+		return c.ccond(x.X)
+	case *ast.Ident:
+		if v := c.locals[x.Name]; v != nil && v.k == "cond" {
+			return v.text
+		}
+	case *ast.UnaryExpr:
+		if x.Op == token.NOT {
+			return "(CNotC " + c.ccond(x.X) + ")"
+		}
+	case *ast.BinaryExpr:
+		if x.Op == token.LAND {
+			return "(CAndC " + c.ccond(x.X) + " " + c.ccond(x.Y) + ")"
+		}
+		if x.Op == token.NEQ || x.Op == token.EQL {
+			v := c.eval(x.X)
+			pure := v.k == "src" && v.root == ""
+			for _, o := range v.ops {
+				if o != "Copy" {
+					pure = false
+				}
+			}
+			if pure {
+				switch rhs := c.src(x.Y); {
+				case rhs == `""` && x.Op == token.NEQ:
+					return "(CNonEmpty " + cdCoqPath(v.path) + ")"
+				case rhs == `""` && x.Op == token.EQL:
+					return "(CEmpty " + cdCoqPath(v.path) + ")"
+				case rhs == "nil" && x.Op == token.NEQ:
+					return "(CNonNil " + cdCoqPath(v.path) + ")"
+				case rhs == "nil" && x.Op == token.EQL:
+					return "(CNotC (CNonNil " + cdCoqPath(v.path) + "))"
+				}
+			}
+		}
+	}
+	return "(CCondUnknown " + cdCoqString(c.src(e)) + ")"
+}
+
+// checksOnly tells whether a block consists of reject checks only (ifs that return or nest such ifs).
+func checksOnly(b *ast.BlockStmt) bool {
+	if len(b.List) == 0 {
+		return false
+	}
+	for _, s := range b.List {
+		is, ok := s.(*ast.IfStmt)
+		if !ok || is.Init != nil || is.Else != nil {
+			return false
+		}
+		if !isReturnOnly(is.Body) && !checksOnly(is.Body) {
+			return false
+		}
+	}
+	return true
+}
+
 func (c *mctx) ifStmt(x *ast.IfStmt) error {
+	// a local boolean stands for its defining expression
+	if id, ok := x.Cond.(*ast.Ident); ok {
+		if v := c.locals[id.Name]; v != nil && v.k == "cond" && v.ast != nil {
+			y := *x
+			y.Cond = v.ast
+			return c.ifStmt(&y)
+		}
+	}
 	cond := c.src(x.Cond)
 	if x.Init != nil {
 		if err := c.stmt(x.Init); err != nil {
@@ -356,8 +448,17 @@ func (c *mctx) ifStmt(x *ast.IfStmt) error {
 	// legacy override block of a decoder: if SRC.A != "" && DST.B == "" { DST.x = SRC.y ... }
 	if ov, ok, err := c.override(x); ok || err != nil {
 		if err == nil {
-			c.out.Overrides = append(c.out.Overrides, ov)
+			c.out.Overrides = append(c.out.Overrides, ov...)
 		}
+		return err
+	}
+	// checks under a compound condition: if A && !B { if ... { return err } }
+	if x.Else == nil && !isReturnOnly(x.Body) && checksOnly(x.Body) {
+		g := newGuard("Cond", "", nil)
+		g.text = c.ccond(x.Cond)
+		c.guards = append(c.guards, g)
+		err := c.stmts(x.Body.List)
+		c.guards = c.guards[:len(c.guards)-1]
 		return err
 	}
 	// reject conditions, possibly chained with else-if
@@ -393,23 +494,24 @@ func condIdentNotNil(e ast.Expr) (string, bool) {
 	return id.Name, true
 }
 
-// override recognises the backward-compatibility block of Info.UnmarshalJSON.
-func (c *mctx) override(x *ast.IfStmt) (string, bool, error) {
+// override recognises the backward-compatibility block of Info.UnmarshalJSON: under a condition
+// on the source, destination fields are re-assigned from other source fields.
+func (c *mctx) override(x *ast.IfStmt) ([]MirOverride, bool, error) {
 	b, ok := x.Cond.(*ast.BinaryExpr)
 	if !ok || b.Op != token.LAND || x.Else != nil {
-		return "", false, nil
+		return nil, false, nil
 	}
 	l, ok := b.X.(*ast.BinaryExpr)
 	if !ok || l.Op != token.NEQ || c.src(l.Y) != `""` {
-		return "", false, nil
+		return nil, false, nil
 	}
 	g := c.eval(l.X)
 	if g.k != "src" || g.root != "" || len(g.ops) != 0 {
-		return "", false, nil
+		return nil, false, nil
 	}
-	var ents []string
-	var walk func(list []ast.Stmt) error
-	walk = func(list []ast.Stmt) error {
+	var out []MirOverride
+	var walk func(cond string, list []ast.Stmt) error
+	walk = func(cond string, list []ast.Stmt) error {
 		for _, s := range list {
 			switch y := s.(type) {
 			case *ast.AssignStmt:
@@ -428,12 +530,12 @@ func (c *mctx) override(x *ast.IfStmt) (string, bool, error) {
 				if c.w.class(v.t) == "hexbytes" && strings.HasPrefix(c.spec.SrcFrom, "local:") {
 					ops = append([]string{"UnHex"}, ops...)
 				}
-				ents = append(ents, cdCoqEntry(MirEntry{lh.path, ops, v.path}))
+				out = append(out, MirOverride{cond, MirEntry{lh.path, ops, v.path}})
 			case *ast.IfStmt:
 				if y.Else != nil || y.Init != nil {
 					return c.brk(s, "unsupported if in override block")
 				}
-				if err := walk(y.Body.List); err != nil {
+				if err := walk("(CAndC "+cond+" "+c.ccond(y.Cond)+")", y.Body.List); err != nil {
 					return err
 				}
 			default:
@@ -442,10 +544,12 @@ func (c *mctx) override(x *ast.IfStmt) (string, bool, error) {
 		}
 		return nil
 	}
-	if err := walk(x.Body.List); err != nil {
-		return "", true, err
+	// the condition is read before the block changes the destination
+	cond := c.ccond(x.Cond)
+	if err := walk(cond, x.Body.List); err != nil {
+		return nil, true, err
 	}
-	return fmt.Sprintf("O %s [%s]", cdCoqPath(g.path), strings.Join(ents, "; ")), true, nil
+	return out, true, nil
 }
 
 func (c *mctx) rangeStmt(x *ast.RangeStmt) error {
